@@ -50,10 +50,12 @@ def _kinks_many(cases):
 
   fns = {
       'const': [('interp', lambda x, xp, fp: jnp.interp(x, xp, fp)), ('lib_interp', vi.interp.__wrapped__ if hasattr(vi.interp, '__wrapped__') else vi.interp),
-                ('_dot_interp', vi._dot_interp)],
+                ('_dot_interp', getattr(vi, '_dot_interp', None))],
       'linear': [('linear_interp_with_linear_extrap', vi.linear_interp_with_linear_extrap)],
-      'safe1': [('_linear_interp_with_safe_extrap', functools.partial(vi._linear_interp_with_safe_extrap, n=1))],
+      'safe1': [('_linear_interp_with_safe_extrap',
+                 functools.partial(vi._linear_interp_with_safe_extrap, n=1) if hasattr(vi, '_linear_interp_with_safe_extrap') else None)],
   }
+  fns = {k: [(n_, f_) for n_, f_ in v if f_ is not None] for k, v in fns.items()}   # private helpers: when present
   groups = {}
   for c in cases:
     k = c['cfg']['kind']
